@@ -3,7 +3,7 @@ from vlib import sesscheck
 
 ID = 'C11'
 LEVEL = 'exploration'
-RULE = 'Nested-key histories (vlib/nested_hist.py): sessions over Shelf(PrimaryKey(room, no)) / Box(PrimaryKey(shelf, pos)) / Tag(PrimaryKey(box)) / Item(box) that create chains of new objects whose keys reference each other, flush single objects or everything, delete with cascades, re-create deleted keys and look objects up; a dict model decides each call; this check reports the identity category. Nested-key part (vlib/c11_nested.py): Shelf(PrimaryKey(room, no)) / Box(PrimaryKey(shelf, pos)) / Item(box) with generated rows; Box objects are reached by navigation, attribute-path and tuple queries, Box[room, no, pos], Box[shelf, pos], get() and selects in a drawn order and must be one Python object per key with the right key. Main part: Same program space as C09 with identity checks weighted up: for every object the program holds, Entity[pk], get(pk), get(unique=value), select(), select_by_sql() and an in-session pickle round trip must return the very same Python object, and get(unique=v) must return the current holder according to the reference store. Non-trivial = an identity check executed after a key change, delete or failed creation in the same session; distinct by program hash. A share of the programs (one third; one half for C11/C13/C15) comes from the hub family: every relationship starts at one entity, with cascading/unlinking relationships declared around a refusing one, populated, and then aimed operations (pending updates of children, pending removals on the hub collections, new children with explicit keys) precede the delete of the hub, so that deletes refused after part of their cascade are common.'
+RULE = 'One-to-one-in-key histories (vlib/c11_seat.py): Seat(PrimaryKey(room, person)) with Seat.person the required side of a one-to-one relationship; creations that fail while their key is being linked (person already seated, key already live), deletes, flushes and commits are decided by a dict model, and after every call every possible key is looked up by get(), Seat[objects], Seat[raw ids], Person.seat, Room.seats and select(): no object may be left behind by a failed creation and an allowed creation must succeed. Nested-key histories (vlib/nested_hist.py): sessions over Shelf(PrimaryKey(room, no)) / Box(PrimaryKey(shelf, pos)) / Tag(PrimaryKey(box)) / Item(box) that create chains of new objects whose keys reference each other, flush single objects or everything, delete with cascades, re-create deleted keys and look objects up; a dict model decides each call; this check reports the identity category. Nested-key part (vlib/c11_nested.py): Shelf(PrimaryKey(room, no)) / Box(PrimaryKey(shelf, pos)) / Item(box) with generated rows; Box objects are reached by navigation, attribute-path and tuple queries, Box[room, no, pos], Box[shelf, pos], get() and selects in a drawn order and must be one Python object per key with the right key. Main part: Same program space as C09 with identity checks weighted up: for every object the program holds, Entity[pk], get(pk), get(unique=value), select(), select_by_sql() and an in-session pickle round trip must return the very same Python object, and get(unique=v) must return the current holder according to the reference store. Non-trivial = an identity check executed after a key change, delete or failed creation in the same session; distinct by program hash. A share of the programs (one third; one half for C11/C13/C15) comes from the hub family: every relationship starts at one entity, with cascading/unlinking relationships declared around a refusing one, populated, and then aimed operations (pending updates of children, pending removals on the hub collections, new children with explicit keys) precede the delete of the hub, so that deletes refused after part of their cascade are common.'
 ASSUMPTIONS = ['live SQLite (in-memory) with foreign keys enforced immediately',
                'reference store vlib/refstore.py written from the documented relationship/cascade/key semantics (DESIGN.md section 7a)',
                'table and column names are taken from the mapping metadata (names only)']
@@ -43,12 +43,27 @@ def run(ctx):
         if msg:
             ctx.fail(case, msg)
     ctx.run_test(th, dict(case=nested_hist.cases()), max_examples=ctx.scale(150, 1500), name='C11_nested_hist')
+    if ctx.violation is not None:
+        return
+    # one-to-one-in-key part (vlib/c11_seat.py): creations that fail while their key is being linked
+    from vlib import c11_seat
+
+    def ts(case):
+        msg = c11_seat.judge(case)
+        nt = c11_seat.nontrivial(case)
+        ctx.case(key=case, nontrivial=nt, classes=['seat_hist'], sample={'initial': case['initial'], 'sessions': case['sessions']} if nt else None)
+        if msg:
+            ctx.fail(case, msg)
+    ctx.run_test(ts, dict(case=c11_seat.cases()), max_examples=ctx.scale(100, 1000), name='C11_seat')
 
 
 def replay(case):
     if case.get('kind') == 'nested_hist':
         from vlib import nested_hist
         return nested_hist.judge(case, 'identity')
+    if case.get('kind') == 'seat':
+        from vlib import c11_seat
+        return c11_seat.judge(case)
     if case.get('kind') == 'nested':
         from vlib import c11_nested
         return c11_nested.judge(case)
